@@ -70,7 +70,8 @@ def view_site(C, b, label, action_positions, file_names, allow_none):
         C.check(ok_nec, R, key + '|only-members-selected', 'in %s an element can be selected for a file although its local file set is neither empty nor contains that file (the action is reachable without the true edge of is_empty()/contains())' % b.short, b.where(A))
         # each disjunct suffices alone: from the true edge of is_empty the action is reached without consulting contains, and vice versa
         def alone(x, others):
-            avoid = {(o[0], 0) for o in others} | ({start} if start != (0, 0) else set())
+            # without consulting the other test: its CALL is not passed (its switch may be shared: `a || b` as the tail of a helper is tested once, in the caller)
+            avoid = set(c_here if others is tc else e_here) | ({start} if start != (0, 0) else set())
             return A in b.reach_from((x[1], 0), include_start=True, avoid=avoid)
         ok_e = bool(te) and any(alone(x, tc) for x in te)
         ok_c = bool(tc) and any(A in b.reach_from((x[1], 0), include_start=True, avoid={start} if start != (0, 0) else frozenset()) for x in tc)
